@@ -42,6 +42,19 @@ def _bounds_cfg(name, keys, length, mx, extra):
                       "  Helpers = {\"cq\", \"cqr\"}\n%sCHECK_DEADLOCK FALSE\n" % (keys, length, mx, extra))
 
 
+def _build(binname):
+    """cargo build; the workspace is shared with other families, whose half-written crates can
+    break a build transiently -- retry before giving up."""
+    import time
+    for attempt in range(3):
+        try:
+            return vlib.cargo_build("hv_std", bins=[binname], features=["runner"], workspace="harness_hydro")
+        except vlib.ToolError:
+            if attempt == 2:
+                raise
+            time.sleep(20)
+
+
 def _run_harness(exe, args):
     # the simulator compiles a trybuild dylib: it needs the crate's manifest dir and cwd
     p = vlib.run_bin(exe, args, cwd=CRATE, env={"CARGO_MANIFEST_DIR": CRATE}, timeout=3000)
@@ -99,16 +112,43 @@ def _report(res, area, trace, viol, expl, what):
     return cases, len(want), len(unexpl)
 
 
-def _canary(res, area, module, trace, mutate, label):
-    evs = vlib.read_ndjson(trace)
-    if not mutate(evs):
-        raise vlib.ToolError("canary %s: no place to corrupt in %s" % (label, trace))
-    ctrace = trace.replace(".ndjson", "_canary_%s.ndjson" % re.sub(r"\W", "_", label))
-    vlib.write_ndjson(ctrace, evs)
+def _head(evs, ncases):
+    """the first ncases whole cases of a trace, plus eof"""
+    out, n = [], 0
+    for e in evs:
+        if e.get("e") == "reset":
+            n += 1
+            if n > ncases:
+                break
+        if e.get("e") != "eof":
+            out.append(json.loads(json.dumps(e)))       # deep copy
+    return out + [{"e": "eof"}]
+
+
+def _canaries(res, area, module, trace, muts):
+    """Each (mutate, label) corrupts its own copy of a short prefix of a good recorded trace;
+    the copies are concatenated (case ids offset by 100000 * i) and validated in ONE TLC run;
+    every copy must be flagged, else the binding is vacuous (ToolError)."""
+    full = vlib.read_ndjson(trace)
+    allevs = []
+    for i, (mutate, label) in enumerate(muts):
+        evs = _head(full, 80)
+        if not mutate(evs):
+            evs = json.loads(json.dumps(full))
+            if not mutate(evs):
+                raise vlib.ToolError("canary %s: no place to corrupt in %s" % (label, trace))
+        for e in evs:
+            if e.get("e") == "reset":
+                e["case"] += 100000 * (i + 1)
+        allevs += [e for e in evs if e.get("e") != "eof"]
+    ctrace = trace.replace(".ndjson", "_canaries.ndjson")
+    vlib.write_ndjson(ctrace, allevs + [{"e": "eof"}])
     cviol, _ = _validate(module, ctrace, None, "canary")
-    if not cviol:
-        raise vlib.ToolError("canary (%s) was NOT rejected by %s" % (label, module))
-    res.extra.setdefault("canaries", []).append("%s: %s -> %s" % (area, label, sorted({v[1] for v in cviol})[:3]))
+    for i, (_, label) in enumerate(muts):
+        hit = sorted({v[1] for v in cviol if v[0] // 100000 == i + 1})
+        if not hit:
+            raise vlib.ToolError("canary (%s) was NOT rejected by %s" % (label, module))
+        res.extra.setdefault("canaries", []).append("%s: %s -> %s" % (area, label, hit[:3]))
 
 
 def _dup_out(evs):
@@ -220,9 +260,9 @@ def _quorum(res, tier, bindir):
             res.samples.append({"kind": "random case, one explored schedule", "events": evs})
 
     # (5) canaries
-    _canary(res, "quorum", "QuorumTrace", trace, _dup_out, "duplicated output")
-    _canary(res, "quorum", "QuorumTrace", trace, _drop_out, "dropped output")
-    _canary(res, "quorum", "QuorumTrace", trace, _drop_err, "dropped error")
+    _canaries(res, "quorum", "QuorumTrace", trace,
+              [(_dup_out, "duplicated output"), (_drop_out, "dropped output"), (_drop_err, "dropped error"),
+               (_early_out, "output moved before the response that completes the quorum")])
 
 
 def _dup_join(evs):
@@ -298,14 +338,14 @@ def _join(res, tier, bindir):
     res.distinct_nontrivial += len({json.dumps(evs[0]["inp"]) for evs in rcases.values()
                                     if len([e for e in evs if e["e"] == "join"]) >= 2})
 
-    _canary(res, "join", "JoinRespTrace", trace, _dup_join, "duplicated join output")
-    _canary(res, "join", "JoinRespTrace", trace, _drop_join, "dropped join output")
-    _canary(res, "join", "JoinRespTrace", trace, _wrong_meta, "joined with other metadata")
+    _canaries(res, "join", "JoinRespTrace", trace,
+              [(_dup_join, "duplicated join output"), (_drop_join, "dropped join output"),
+               (_wrong_meta, "joined with other metadata")])
 
 
 def run(tier):
     res = vlib.PropResult("C39")
-    bindir = vlib.cargo_build("hv_std", bins=["hv_quorum"], features=["runner"], workspace="harness_hydro")
+    bindir = _build("hv_quorum")
     _quorum(res, tier, bindir)
     _join(res, tier, bindir)
     res.rule = ("case = (helper, min, max, response sequence, stage split) x one explored simulator schedule; "
